@@ -22,7 +22,7 @@ import (
 func init() {
 	Register(&Prop{
 		ID:   "C10",
-		Expl: "Decides on SSA and the VTA call graph: (R1) activeSwaps is only ever assigned a fresh map and only inserted into by lockSwap; the conflict edge of every channel test in lockSwap cannot reach the insert and returns a non-nil error; every SendEvent/Recover outside the state machine's own methods is applied either to a machine taken from activeSwaps or to the very machine that the same function passed to lockSwap (or to a wrapper that succeeds only behind lockSwap's success edge), behind the success edge, and lockSwap is always given <machine>.SwapId.String() as key; (R2) both operands of every channel test in lockSwap (an == comparison, a norm(a)==norm(b) helper, or a lookup in a channel-keyed map whose inserts are examined too) are results of a scid normaliser (strings.ReplaceAll between ':' and 'x', or any module function that returns only such results: Scid.ClnStyle/LndStyle, GetScidInBoltFormat) of one and the same spelling, followed through all call sites of lockSwap; (R3) the channel of an existing entry that the test reads is a field or map written only by lockSwap from its channel parameter — not read from SwapData, which ApplyToSwapData fills later under another lock; (R4) below OnMessageReceived, every path from the error edge of lockSwap to a return sends MarshalPeerswapMessage(&CancelMessage{SwapId: requested id}) to the requesting peer (directly or through a helper that does so on all its paths), or hands the refusal up to a caller that does; (R5) every release of an activeSwaps entry (delete, or a call of a function that deletes its parameter) outside dead code is dominated by done == true of a SendEvent/Recover on the machine whose id is released (also when machine and done flag are passed to a helper). Quantifier: all call sites, all CFG paths, all call-graph callers.",
+		Expl: "Decides on SSA and the VTA call graph: (R1) activeSwaps is only ever assigned a fresh map and only inserted into by lockSwap; the conflict edge of every channel test in lockSwap cannot reach the insert and returns a non-nil error; every SendEvent/Recover outside the state machine's own methods is applied either to a machine taken from activeSwaps or to the very machine that the same function passed to lockSwap (or to a wrapper that succeeds only behind lockSwap's success edge), behind the success edge, and lockSwap is always given <machine>.SwapId.String() as key; (R2) both operands of every channel test in lockSwap (an == comparison, a norm(a)==norm(b) helper, or a lookup in a channel-keyed map whose inserts are examined too) are results of a scid normaliser (strings.ReplaceAll / Replace / a strings.Replacer built from exactly that pair between ':' and 'x', or any module function that returns only such results: Scid.ClnStyle/LndStyle, GetScidInBoltFormat; a value produced by a call that is not understood makes the rule undecided, not violated) of one and the same spelling, followed through all call sites of lockSwap; (R3) the channel of an existing entry that the test reads is a field or map written only by lockSwap (or a setter called only by lockSwap) from its channel parameter — not read from SwapData, which ApplyToSwapData fills later under another lock; (R4) below OnMessageReceived, every path from the error edge of lockSwap to a return sends MarshalPeerswapMessage(&CancelMessage{SwapId: requested id}) to the requesting peer (directly or through a helper that does so on all its paths), or hands the refusal up to a caller that does; (R5) every release of an activeSwaps entry (delete, or a call of a function that deletes its parameter) outside dead code is dominated by done == true of a SendEvent/Recover on the machine whose id (or activeSwaps lookup key) is released, also when machine and done flag are passed to a helper or the release sits in an unconditional helper whose callers are then examined. Quantifier: all call sites, all CFG paths, all call-graph callers.",
 		NotD: "Whether the loop in lockSwap visits every entry (only the edges of the comparison are examined); run-time interleavings of two lockSwap callers beyond the fact that test and insert sit in one function (C19); that a swap for which SendEvent returned done is terminal (C16) and that every terminal swap is eventually released (a leaked entry only over-blocks); channel ids that differ in more than the separator; the RPC front ends (peerswaprpc/server.go passes the ':' spelling, clightning_commands.go the 'x' spelling — they are reported as sources of the unnormalised operand, not checked themselves).",
 		Run:  runC10,
 	})
@@ -45,6 +45,7 @@ type c10Ctx struct {
 	normFns map[*ssa.Function]string // generic normaliser functions -> style ("x" or ":")
 	through map[string]bool          // CallInfo names to look through when asking where a channel key comes from
 
+	chanAlias  map[ssa.Value]bool // parameters of scan helpers that receive the (derived) channel
 	lookupFns  map[*ssa.Function]int
 	releaseFns map[*ssa.Function]int
 	lockers    map[*ssa.Function]int // lockSwap and wrappers that succeed only behind its success edge -> machine parameter index
@@ -70,7 +71,10 @@ func runC10(c *an.Check) {
 		}
 		return fn
 	}
-	x.lockSwap = need("(*SwapService).lockSwap")
+	x.lockSwap = c10FindGate(w) // by structure: the function that inserts a parameter into activeSwaps
+	if x.lockSwap == nil {
+		c.Anchor("no function of package swap performs `SwapService.activeSwaps[param] = param` (lockSwap)")
+	}
 	x.sendEvent = need("(*SwapStateMachine).SendEvent")
 	x.recoverFn = need("(*SwapStateMachine).Recover")
 	x.root = need("(*SwapService).OnMessageReceived")
@@ -89,12 +93,42 @@ func runC10(c *an.Check) {
 	}
 	x.findNormalisers()
 	x.findMapFns()
+	x.addLookupWrappers()
 	x.findLockers()
 
 	x.ruleR1()
 	x.ruleR2R3()
 	x.ruleR4()
 	x.ruleR5()
+}
+
+// c10FindGate: the unique production function of package swap that inserts a
+// parameter under a parameter key into SwapService.activeSwaps (lockSwap).
+func c10FindGate(w *an.World) *ssa.Function {
+	var found []*ssa.Function
+	for _, fn := range prodFuncs(w) {
+		if w.FnRel(fn) != "swap" {
+			continue
+		}
+		for _, b := range fn.Blocks {
+			for _, in := range b.Instrs {
+				if mu, ok := in.(*ssa.MapUpdate); ok && c10IsActiveMap(mu.Map) {
+					_, kp := c10Strip(mu.Key).(*ssa.Parameter)
+					_, vp := c10Strip(mu.Value).(*ssa.Parameter)
+					if kp && vp {
+						found = append(found, fn)
+					}
+				}
+			}
+		}
+	}
+	if len(found) == 1 {
+		return found[0]
+	}
+	if fn := w.Func("swap", "(*SwapService).lockSwap"); fn != nil && fn.Blocks != nil {
+		return fn
+	}
+	return nil
 }
 
 // ---- helpers --------------------------------------------------------------------
@@ -113,6 +147,21 @@ func c10Strip(v ssa.Value) ssa.Value {
 			if c10IsString(y.Type()) && c10IsString(y.X.Type()) {
 				v = y.X
 				continue
+			}
+			return v
+		case *ssa.UnOp:
+			// a variable captured by a closure lives in a cell that is assigned once
+			if al, ok := y.X.(*ssa.Alloc); ok && y.Op == token.MUL && al.Referrers() != nil {
+				var st []ssa.Value
+				for _, r := range *al.Referrers() {
+					if s, ok := r.(*ssa.Store); ok && s.Addr == ssa.Value(al) {
+						st = append(st, s.Val)
+					}
+				}
+				if len(st) == 1 {
+					v = st[0]
+					continue
+				}
 			}
 			return v
 		case *ssa.Phi:
@@ -230,6 +279,17 @@ func (x *c10Ctx) replaceStyle(call *ssa.Call) (ssa.Value, string, bool) {
 		if n, ok := an.ConstInt(a[3]); !ok || n >= 0 {
 			return nil, "", false
 		}
+	case ci.Name == "func:(*strings.Replacer).Replace" && len(a) == 2:
+		// receiver: strings.NewReplacer(old, new), directly or through a package variable
+		if pairs, ok := x.replacerPairs(a[0]); ok && len(pairs) == 2 {
+			switch {
+			case pairs[0] == ":" && pairs[1] == "x":
+				return a[1], "x", true
+			case pairs[0] == "x" && pairs[1] == ":":
+				return a[1], ":", true
+			}
+		}
+		return nil, "", false
 	default:
 		return nil, "", false
 	}
@@ -245,6 +305,82 @@ func (x *c10Ctx) replaceStyle(call *ssa.Call) (ssa.Value, string, bool) {
 		return a[0], ":", true
 	}
 	return nil, "", false
+}
+
+// replacerPairs: the constant arguments of the strings.NewReplacer call that
+// produced v (v is the call itself or a load of a package variable that is
+// assigned exactly once, in the package initialiser, from such a call).
+func (x *c10Ctx) replacerPairs(v ssa.Value) ([]string, bool) {
+	v = c10Strip(v)
+	if u, ok := v.(*ssa.UnOp); ok && u.Op == token.MUL {
+		g, ok := u.X.(*ssa.Global)
+		if !ok {
+			return nil, false
+		}
+		var stored []ssa.Value
+		seenSt := map[*ssa.Store]bool{}
+		fns := x.w.SrcFuncs(nil)
+		if g.Pkg != nil {
+			if ini := g.Pkg.Func("init"); ini != nil {
+				fns = append(fns, ini)
+			}
+		}
+		for _, fn := range fns {
+			for _, b := range fn.Blocks {
+				for _, in := range b.Instrs {
+					if st, ok := in.(*ssa.Store); ok && st.Addr == ssa.Value(g) && !seenSt[st] {
+						seenSt[st] = true
+						stored = append(stored, st.Val)
+					}
+				}
+			}
+		}
+		if len(stored) != 1 {
+			return nil, false
+		}
+		v = c10Strip(stored[0])
+	}
+	call, ok := v.(*ssa.Call)
+	if !ok || x.w.Info(call).Name != "func:strings.NewReplacer" || len(call.Call.Args) != 1 {
+		return nil, false
+	}
+	sl, ok := call.Call.Args[0].(*ssa.Slice)
+	if !ok {
+		return nil, false
+	}
+	al, ok := sl.X.(*ssa.Alloc)
+	if !ok || al.Referrers() == nil {
+		return nil, false
+	}
+	out := map[int64]string{}
+	for _, r := range *al.Referrers() {
+		ia, ok := r.(*ssa.IndexAddr)
+		if !ok || ia.Referrers() == nil {
+			continue
+		}
+		idx, ok := an.ConstInt(ia.Index)
+		if !ok {
+			return nil, false
+		}
+		for _, rr := range *ia.Referrers() {
+			if st, ok := rr.(*ssa.Store); ok && st.Addr == ssa.Value(ia) {
+				cs, ok := an.ConstString(st.Val)
+				if !ok {
+					return nil, false
+				}
+				out[idx] = cs
+			}
+		}
+	}
+	res := make([]string, len(out))
+	for i := range res {
+		sv, ok := out[int64(i)]
+		if !ok {
+			return nil, false
+		}
+		res[i] = sv
+	}
+	return res, true
 }
 
 // normCall: call normalises a scid; style is the separator of the result.
@@ -336,6 +472,39 @@ func (x *c10Ctx) findMapFns() {
 	}
 }
 
+// addLookupWrappers: a function that returns result #0 of a lookup function
+// called with one of its own parameters as key is a lookup function as well.
+func (x *c10Ctx) addLookupWrappers() {
+	for round := 0; round < 2; round++ {
+		for _, g := range prodFuncs(x.w) {
+			if _, done := x.lookupFns[g]; done || x.w.FnRel(g) != "swap" || g == x.lockSwap {
+				continue
+			}
+			for _, ci := range an.Calls(g) {
+				k, ok := ci.(*ssa.Call)
+				if !ok {
+					continue
+				}
+				ki, isL := x.lookupFns[k.Common().StaticCallee()]
+				if !isL || ki >= len(k.Call.Args) {
+					continue
+				}
+				p, isP := c10Strip(k.Call.Args[ki]).(*ssa.Parameter)
+				if !isP || p.Parent() != g {
+					continue
+				}
+				for _, r := range an.Returns(g) {
+					for _, rv := range r.Results {
+						if ex, isEx := c10Strip(rv).(*ssa.Extract); isEx && ex.Tuple == ssa.Value(k) && ex.Index == 0 {
+							x.lookupFns[g] = c10ParamIndex(p)
+						}
+					}
+				}
+			}
+		}
+	}
+}
+
 // findLockers: lockSwap plus the functions that pass their machine parameter to
 // a locker and can return a nil error only behind that call's success edge.
 func (x *c10Ctx) findLockers() {
@@ -402,6 +571,14 @@ func (x *c10Ctx) findLockers() {
 // fromActiveMap: machine value m is an activeSwaps entry.
 func (x *c10Ctx) fromActiveMap(m ssa.Value) bool {
 	m = c10Strip(m)
+	if ph, ok := m.(*ssa.Phi); ok {
+		for _, e := range ph.Edges {
+			if e == ssa.Value(ph) || !x.fromActiveMap(e) {
+				return false
+			}
+		}
+		return len(ph.Edges) > 0
+	}
 	var tuple ssa.Value = m
 	if ex, ok := m.(*ssa.Extract); ok {
 		tuple = ex.Tuple
@@ -420,6 +597,17 @@ func (x *c10Ctx) fromActiveMap(m ssa.Value) bool {
 		}
 	}
 	return false
+}
+
+// isIdString: v is <some *SwapId>.String().
+func (x *c10Ctx) isIdString(v ssa.Value) bool {
+	call, ok := c10Strip(v).(*ssa.Call)
+	return ok && call.Common().StaticCallee() == x.idString
+}
+
+func (x *c10Ctx) isParam(v ssa.Value) bool {
+	_, ok := c10Strip(v).(*ssa.Parameter)
+	return ok
 }
 
 // ownId: v is <m>.SwapId.String(); returns m.
@@ -505,22 +693,143 @@ type c10Test struct {
 	pos      token.Pos
 }
 
+// fromChanParam: v is computed from lockSwap's channel parameter. Every call
+// that takes such a value hands it on (an unrecognised normaliser must not drop
+// the flow: whether it normalises is decided separately).
 func (x *c10Ctx) fromChanParam(v ssa.Value) bool {
-	if v == nil {
+	return x.derives(v, map[ssa.Value]bool{}, 0)
+}
+
+func (x *c10Ctx) derives(v ssa.Value, seen map[ssa.Value]bool, depth int) bool {
+	if v == nil || seen[v] || depth > 12 {
 		return false
 	}
-	ss := x.w.Sources(v, an.FlowOpts{ThroughCalls: x.through})
-	for _, l := range ss.Leaves {
-		if l.Val == ssa.Value(x.chanP) {
-			return true
+	seen[v] = true
+	if v == ssa.Value(x.chanP) || x.chanAlias[v] {
+		return true
+	}
+	switch y := v.(type) {
+	case *ssa.Call:
+		for _, a := range y.Call.Args {
+			if c10IsString(a.Type()) && x.derives(a, seen, depth+1) {
+				return true
+			}
+		}
+		if y.Call.IsInvoke() {
+			return x.derives(y.Call.Value, seen, depth+1)
+		}
+	case *ssa.Phi:
+		for _, e := range y.Edges {
+			if x.derives(e, seen, depth+1) {
+				return true
+			}
+		}
+	case *ssa.ChangeType:
+		return x.derives(y.X, seen, depth+1)
+	case *ssa.Convert:
+		return x.derives(y.X, seen, depth+1)
+	case *ssa.MakeInterface:
+		return x.derives(y.X, seen, depth+1)
+	case *ssa.BinOp:
+		return x.derives(y.X, seen, depth+1) || x.derives(y.Y, seen, depth+1)
+	case *ssa.Slice:
+		return x.derives(y.X, seen, depth+1)
+	case *ssa.Extract:
+		return x.derives(y.Tuple, seen, depth+1)
+	case *ssa.UnOp:
+		if al, ok := y.X.(*ssa.Alloc); ok && y.Op == token.MUL && al.Referrers() != nil {
+			for _, r := range *al.Referrers() {
+				if st, ok := r.(*ssa.Store); ok && st.Addr == ssa.Value(al) && x.derives(st.Val, seen, depth+1) {
+					return true
+				}
+			}
 		}
 	}
 	return false
 }
 
 func (x *c10Ctx) channelTests() (tests []c10Test, unknown []string) {
+	if x.chanAlias == nil {
+		x.chanAlias = map[ssa.Value]bool{}
+	}
+	return x.channelTestsIn(x.lockSwap, 0)
+}
+
+// scanHelper: cond (a bool call result in fn) comes from a module function that
+// is given the channel and scans for a conflict itself: its own channel tests
+// are lifted, provided it answers true exactly on their conflict edges.
+func (x *c10Ctx) scanHelper(cond ssa.Value, depth int) (sub []c10Test, why string, isHelper bool) {
+	var call *ssa.Call
+	bi := 0
+	switch y := cond.(type) {
+	case *ssa.Call:
+		call = y
+	case *ssa.Extract:
+		call, _ = y.Tuple.(*ssa.Call)
+		bi = y.Index
+	}
+	if call == nil {
+		return nil, "", false
+	}
+	g := call.Common().StaticCallee()
+	if g == nil || !x.w.InModule(g) || g.Blocks == nil || depth > 2 {
+		return nil, "", false
+	}
+	ai, nStr := -1, 0
+	for i, a := range call.Call.Args {
+		if !c10IsString(a.Type()) {
+			continue
+		}
+		nStr++
+		if x.fromChanParam(a) {
+			ai = i
+		}
+	}
+	if ai < 0 || nStr != 1 || ai >= len(g.Params) {
+		return nil, "", false
+	}
+	x.chanAlias[g.Params[ai]] = true
+	sub, unk := x.channelTestsIn(g, depth+1)
+	if len(sub) == 0 {
+		return nil, "helper " + x.fname(g) + " is given the channel but no channel test was found in it" + strings.Join(unk, "; "), true
+	}
+	// the helper must answer true on the conflict edges and false elsewhere
+	conflictReach := map[*ssa.BasicBlock]bool{}
+	for _, t := range sub {
+		for b := range an.ReachBlocks([]*ssa.BasicBlock{t.conflict.To()}, nil, nil) {
+			conflictReach[b] = true
+		}
+	}
+	for _, r := range an.Returns(g) {
+		if bi >= len(r.Results) {
+			return nil, "helper " + x.fname(g) + ": unexpected result shape", true
+		}
+		cst, isC := c10Strip(r.Results[bi]).(*ssa.Const)
+		if !isC || cst.Value == nil {
+			return nil, "helper " + x.fname(g) + " does not return constant answers", true
+		}
+		val := cst.Value.String() == "true"
+		onlyConflict := true
+		// a return reachable without passing a conflict edge?
+		cut := map[an.Edge]bool{}
+		for _, t := range sub {
+			cut[t.conflict] = true
+		}
+		if an.ReachBlocks([]*ssa.BasicBlock{g.Blocks[0]}, cut, nil)[r.Block()] {
+			onlyConflict = false
+		}
+		switch {
+		case val && !onlyConflict:
+			return nil, "helper " + x.fname(g) + " can answer true without a channel conflict", true
+		case !val && conflictReach[r.Block()] && onlyConflict:
+			return nil, "helper " + x.fname(g) + " answers false on a conflict", true
+		}
+	}
+	return sub, "", true
+}
+
+func (x *c10Ctx) channelTestsIn(fn *ssa.Function, depth int) (tests []c10Test, unknown []string) {
 	w := x.w
-	fn := x.lockSwap
 	for _, b := range fn.Blocks {
 		if len(b.Instrs) == 0 {
 			continue
@@ -538,6 +847,18 @@ func (x *c10Ctx) channelTests() (tests []c10Test, unknown []string) {
 			}
 			cond = u.X
 			tE, fE = fE, tE
+		}
+		if sub, why, isHelper := x.scanHelper(cond, depth); isHelper {
+			if why != "" {
+				unknown = append(unknown, why)
+				continue
+			}
+			for _, t := range sub {
+				t.conflict = tE
+				t.pos = cond.Pos()
+				tests = append(tests, t)
+			}
+			continue
 		}
 		switch y := cond.(type) {
 		case *ssa.BinOp:
@@ -649,8 +970,17 @@ func (x *c10Ctx) helperStyle(g *ssa.Function) (string, bool) {
 // normLeaves classifies where a compared value comes from: every leaf must be
 // a normaliser result. Returns the spellings found and the raw leaves.
 func (x *c10Ctx) normLeaves(v ssa.Value) (styles map[string]bool, raw []string, unknown []string) {
+	return x.normLeavesRec(v, map[string]bool{})
+}
+
+func (x *c10Ctx) normLeavesRec(v ssa.Value, fieldsSeen map[string]bool) (styles map[string]bool, raw []string, unknown []string) {
 	styles = map[string]bool{}
-	ss := x.w.Sources(v, an.FlowOpts{IntoCallers: true})
+	// recognised normalisers stay leaves; other module functions are opened
+	stop := map[string]bool{}
+	for fn := range x.normFns {
+		stop["func:"+x.w.FuncName(fn)] = true
+	}
+	ss := x.w.Sources(v, an.FlowOpts{IntoCallers: true, IntoCallees: true, StopAt: stop})
 	for _, l := range ss.Leaves {
 		switch l.Kind {
 		case "call":
@@ -660,18 +990,27 @@ func (x *c10Ctx) normLeaves(v ssa.Value) (styles map[string]bool, raw []string, 
 					continue
 				}
 			}
-			raw = append(raw, "result of "+strings.TrimSuffix(strings.TrimPrefix(l.Name, "func:"), "#0")+" ("+x.w.Pos(l.Val.Pos())+")")
+			// a call that is not understood (library function, function without a
+			// body): it may or may not produce one spelling
+			unknown = append(unknown, "result of "+strings.TrimSuffix(strings.TrimPrefix(l.Name, "func:"), "#0")+" ("+x.w.Pos(l.Val.Pos())+") is not a recognised scid normaliser")
 		case "param":
-			raw = append(raw, "parameter "+l.Name)
+			if pv, ok := l.Val.(*ssa.Parameter); ok && pv.Parent() != nil && pv.Parent().Synthetic != "" {
+				continue // a compiler-generated promoted-method wrapper that nothing calls
+			}
+			unknown = append(unknown, "parameter "+l.Name+" has no resolvable call site")
 		case "field":
-			st, r, u := x.fieldWritersNorm(l.Name)
+			st, r, u := x.fieldWritersNorm(l.Name, fieldsSeen)
 			for k := range st {
 				styles[k] = true
 			}
 			raw = append(raw, r...)
 			unknown = append(unknown, u...)
 		case "const":
+			if l.Name == `""` {
+				continue // "no channel": equal to nothing that is normalised
+			}
 			raw = append(raw, "constant "+l.Name)
+		case "zero":
 		default:
 			unknown = append(unknown, l.String())
 		}
@@ -680,30 +1019,34 @@ func (x *c10Ctx) normLeaves(v ssa.Value) (styles map[string]bool, raw []string, 
 }
 
 // fieldWritersNorm: the values stored in field chain's last field (module-wide)
-// are all normaliser results.
-func (x *c10Ctx) fieldWritersNorm(chain string) (styles map[string]bool, raw []string, unknown []string) {
+// are all normaliser results (a stored parameter is followed to the call sites).
+func (x *c10Ctx) fieldWritersNorm(chain string, fieldsSeen map[string]bool) (styles map[string]bool, raw []string, unknown []string) {
 	styles = map[string]bool{}
 	last := chain
 	if i := strings.LastIndex(chain, ">"); i >= 0 {
 		last = chain[i+1:]
 	}
+	if fieldsSeen[last] {
+		return
+	}
+	fieldsSeen[last] = true
 	n := 0
 	for _, st := range x.w.FieldWriters(last) {
 		if an.IsTestSupport(x.w.FnRel(st.Parent())) {
 			continue
 		}
 		n++
-		call, ok := c10Strip(st.Val).(*ssa.Call)
-		if ok {
-			if s, ok := x.normCall(call); ok {
-				styles[s] = true
-				continue
-			}
+		sst, r, u := x.normLeavesRec(st.Val, fieldsSeen)
+		for k := range sst {
+			styles[k] = true
 		}
-		raw = append(raw, "field "+last+" written raw in "+x.fname(st.Parent())+" ("+x.w.Pos(st.Pos())+")")
+		for _, rr := range r {
+			raw = append(raw, "field "+last+" written in "+x.fname(st.Parent())+" ("+x.w.Pos(st.Pos())+") with "+rr)
+		}
+		unknown = append(unknown, u...)
 	}
 	if n == 0 {
-		raw = append(raw, "field "+chain+" (filled by decoding / never normalised)")
+		raw = append(raw, "field "+chain+" (filled by decoding a peer or user message, any spelling)")
 	}
 	return
 }
@@ -743,9 +1086,11 @@ func (x *c10Ctx) ruleR1() {
 		if an.IsTestSupport(w.FnRel(fn)) {
 			continue
 		}
-		_, fresh := c10Strip(st.Val).(*ssa.MakeMap)
-		c.Decide(fresh, "C10.R1", x.fname(fn)+" activeSwaps assignment", w.Pos(st.Pos()),
-			"assigned a fresh empty map", "activeSwaps is replaced by a map that did not pass through lockSwap")
+		if _, fresh := c10Strip(st.Val).(*ssa.MakeMap); fresh {
+			c.OK("C10.R1", x.fname(fn)+" activeSwaps assignment", w.Pos(st.Pos()), "assigned a fresh empty map")
+		} else {
+			c.Unknown("C10.R1", x.fname(fn)+" activeSwaps assignment", w.Pos(st.Pos()), "activeSwaps is assigned a value that is not a map literal / make(); cannot decide that it holds no entry that bypassed lockSwap")
+		}
 	}
 
 	// (b) conflict edge refuses
@@ -801,10 +1146,21 @@ func (x *c10Ctx) ruleR1() {
 			g := ci.Common().StaticCallee()
 			if g == x.lockSwap {
 				args := ci.Common().Args
-				m, ok := x.ownId(args[c10ParamIndex(x.idP)])
+				keyArg := args[c10ParamIndex(x.idP)]
+				m, ok := x.ownId(keyArg)
 				cons := x.fname(fn) + " lockSwap key"
-				c.Decide(ok && m == c10Strip(args[c10ParamIndex(x.fsmP)]), "C10.R1", cons, w.Pos(ci.Pos()),
-					"the entry is stored under the machine's own SwapId", "the entry is stored under an id that is not <machine>.SwapId.String(): lookups and RemoveActiveSwap(<machine>.SwapId) miss it, the channel stays locked or is never found")
+				badKey := "the entry is stored under an id that is not <machine>.SwapId.String(): lookups and RemoveActiveSwap(<machine>.SwapId) miss it, the channel stays locked or is never found"
+				switch {
+				case ok && m == c10Strip(args[c10ParamIndex(x.fsmP)]):
+					c.OK("C10.R1", cons, w.Pos(ci.Pos()), "the entry is stored under the machine's own SwapId")
+				case ok:
+					c.Bad("C10.R1", cons, w.Pos(ci.Pos()), badKey+" (it is the id of another machine)")
+				case x.isIdString(keyArg) || x.isParam(keyArg):
+					// some SwapId, or a key handed in by the caller: may well be the machine's id
+					c.Unknown("C10.R1", cons, w.Pos(ci.Pos()), "cannot decide that the key ("+w.Term(keyArg)+") is the SwapId of the machine that is locked in")
+				default:
+					c.Bad("C10.R1", cons, w.Pos(ci.Pos()), badKey+" (the key "+w.Term(keyArg)+" is not a swap id at all)")
+				}
 				continue
 			}
 			if g != x.sendEvent && g != x.recoverFn {
@@ -842,9 +1198,26 @@ func (x *c10Ctx) ruleR1() {
 					break
 				}
 			}
+			if verdict != "" {
+				if p, isP := recv.(*ssa.Parameter); isP && p.Parent() == fn {
+					switch v, why := x.gatedAtCallers(fn, p, 0); v {
+					case "ok":
+						c.OK("C10.R1", cons, w.Pos(ci.Pos()), "the machine is a parameter; at every call site it is an activeSwaps entry or was just locked in")
+						continue
+					case "unknown":
+						c.Unknown("C10.R1", cons, w.Pos(ci.Pos()), why)
+						continue
+					default:
+						verdict = why
+					}
+				}
+			}
 			if verdict == "" {
-				nLocked++
+				nLocked += x.releaseWeight(fn, recv)
 				c.OK("C10.R1", cons, w.Pos(ci.Pos()), "behind the success edge of lockSwap on the same machine")
+			} else if !x.positivelyUngated(fn, recv) {
+				nLocked++
+				c.Unknown("C10.R1", cons, w.Pos(ci.Pos()), "cannot tell where the machine that receives the event comes from ("+w.Term(recv)+"): it is not recognisably an activeSwaps entry, a machine locked in here, a fresh machine or a stored one")
 			} else {
 				nLocked++
 				c.Bad("C10.R1", cons, w.Pos(ci.Pos()), "an event is delivered to a machine that is neither an activeSwaps entry nor locked in here: "+verdict+"; the swap runs although another swap is active on the channel")
@@ -852,6 +1225,127 @@ func (x *c10Ctx) ruleR1() {
 		}
 	}
 	c.AtLeast("C10.R1", "creation/recovery sites (first event on a machine that is not taken from activeSwaps) examined", nLocked, 5)
+}
+
+// positivelyUngated: the machine is known to be outside the gate: it was passed
+// to a locker in this function (whose result is then ignored), it is freshly
+// constructed (a module function that returns only new objects, or a local
+// literal), it comes from the store, or it is a parameter (callers examined
+// separately).
+func (x *c10Ctx) positivelyUngated(fn *ssa.Function, m ssa.Value) bool {
+	for _, li := range an.Calls(fn) {
+		if mi, isL := x.lockers[li.Common().StaticCallee()]; isL && mi < len(li.Common().Args) && c10Strip(li.Common().Args[mi]) == m {
+			return true
+		}
+	}
+	var tuple ssa.Value = m
+	if ex, ok := m.(*ssa.Extract); ok {
+		tuple = ex.Tuple
+	}
+	switch t := tuple.(type) {
+	case *ssa.Alloc, *ssa.Parameter:
+		return true
+	case *ssa.Phi:
+		for _, e := range t.Edges {
+			if e != ssa.Value(t) && x.positivelyUngated(fn, c10Strip(e)) {
+				return true
+			}
+		}
+	case *ssa.Call:
+		ci := x.w.Info(t)
+		if strings.HasPrefix(ci.Name, "iface:swap.Store.") {
+			return true
+		}
+		if g := ci.Static; g != nil && x.w.InModule(g) && g.Blocks != nil {
+			fresh := true
+			for _, r := range an.Returns(g) {
+				if len(r.Results) == 0 {
+					fresh = false
+					continue
+				}
+				if _, isAlloc := c10Strip(r.Results[0]).(*ssa.Alloc); !isAlloc {
+					fresh = false
+				}
+			}
+			return fresh
+		}
+	case *ssa.UnOp, *ssa.Lookup, *ssa.Index, *ssa.IndexAddr:
+		// an element of a list (e.g. the swaps returned by the store)
+		return false
+	}
+	return false
+}
+
+// lockedBefore: machine m was passed to a locker in fn and at lies behind the
+// locker's success edge; "" or the reason why not.
+func (x *c10Ctx) lockedBefore(fn *ssa.Function, m ssa.Value, at *ssa.BasicBlock) string {
+	verdict := "the machine is never passed to lockSwap (or a wrapper of it) in " + x.fname(fn)
+	for _, li := range an.Calls(fn) {
+		lk, ok := li.(*ssa.Call)
+		if !ok {
+			continue
+		}
+		mi, isL := x.lockers[lk.Common().StaticCallee()]
+		if !isL || mi >= len(lk.Call.Args) || c10Strip(lk.Call.Args[mi]) != m {
+			continue
+		}
+		okE, _ := an.OkEdges(lk)
+		verdict = "lockSwap's error is not tested before the event (or the test does not dominate it)"
+		for _, e := range okE {
+			if an.EdgeDominates(e, at) {
+				return ""
+			}
+		}
+	}
+	return verdict
+}
+
+// gatedAtCallers: parameter p of fn (a machine that fn sends an event to) is, at
+// every production call site of fn, an activeSwaps entry or a machine locked in
+// before the call. Verdicts "ok" / "bad" / "unknown".
+func (x *c10Ctx) gatedAtCallers(fn *ssa.Function, p *ssa.Parameter, depth int) (string, string) {
+	if depth > 3 {
+		return "unknown", "call depth limit reached while following a machine parameter"
+	}
+	pi := c10ParamIndex(p)
+	n := 0
+	for _, caller := range prodFuncs(x.w) {
+		for _, b := range caller.Blocks {
+			for _, in := range b.Instrs {
+				ci, isCall := in.(ssa.CallInstruction)
+				if isCall && ci.Common().StaticCallee() == fn {
+					n++
+					if pi >= len(ci.Common().Args) {
+						return "unknown", "cannot match the arguments of " + x.fname(fn) + " in " + x.fname(caller)
+					}
+					arg := c10Strip(ci.Common().Args[pi])
+					if x.fromActiveMap(arg) || x.lockedBefore(caller, arg, ci.Block()) == "" {
+						continue
+					}
+					if ap, isP := arg.(*ssa.Parameter); isP && ap.Parent() == caller {
+						// the receiver of a state machine method: its own recursion
+						if c10ParamIndex(ap) == 0 && caller.Signature.Recv() != nil && x.isPtrTo(ap.Type(), x.tSM) {
+							continue
+						}
+						if v, why := x.gatedAtCallers(caller, ap, depth+1); v != "ok" {
+							return v, why
+						}
+						continue
+					}
+					return "bad", "in " + x.fname(caller) + " (" + x.w.Pos(ci.Pos()) + ") " + x.fname(fn) + " is given a machine that is neither an activeSwaps entry nor locked in there"
+				}
+				for _, op := range in.Operands(nil) {
+					if f, isF := (*op).(*ssa.Function); isF && f == fn && !(isCall && ci.Common().StaticCallee() == fn) {
+						return "unknown", x.fname(fn) + " is used as a function value in " + x.fname(caller)
+					}
+				}
+			}
+		}
+	}
+	if n == 0 {
+		return "unknown", x.fname(fn) + " sends an event to a machine parameter and has no static production caller"
+	}
+	return "ok", ""
 }
 
 // ---- R2 / R3 -----------------------------------------------------------------------
@@ -933,7 +1427,11 @@ func (x *c10Ctx) ruleR2R3() {
 					bad = append(bad, "insert at "+w.Pos(mu.Pos())+" is not keyed by the channel parameter")
 				}
 			}
-			c.Decide(len(bad) == 0, "C10.R3", cons3, pos, "the channel map is filled only by lockSwap from its channel parameter", strings.Join(bad, "; "))
+			if len(bad) == 0 {
+				c.OK("C10.R3", cons3, pos, "the channel map is filled only by lockSwap from its channel parameter")
+			} else {
+				c.Unknown("C10.R3", cons3, pos, "cannot decide that the channel map is filled at lock time: "+strings.Join(bad, "; "))
+			}
 		default:
 			ss := w.Sources(t.entry, an.FlowOpts{IntoCallees: true, ThroughCalls: x.through})
 			var late, unk3 []string
@@ -988,7 +1486,10 @@ func (x *c10Ctx) writtenOnlyByLock(field string) string {
 		}
 		n++
 		if fn != x.lockSwap {
-			return "field " + field + " is also written in " + x.fname(fn) + " (" + x.w.Pos(st.Pos()) + ")"
+			if why := x.setterOnlyFromLock(fn, st.Val); why != "" {
+				return "field " + field + " is also written in " + x.fname(fn) + " (" + x.w.Pos(st.Pos()) + "): " + why
+			}
+			continue
 		}
 		if !x.fromChanParam(st.Val) {
 			return "field " + field + " is written in lockSwap with a value that does not come from the channel parameter"
@@ -1005,6 +1506,46 @@ func (x *c10Ctx) writtenOnlyByLock(field string) string {
 	}
 	if n == 0 {
 		return "field " + field + " has no writer"
+	}
+	return ""
+}
+
+// setterOnlyFromLock: fn stores one of its parameters and every production use
+// of fn is a static call inside lockSwap whose argument comes from the channel
+// parameter; "" or the reason why not.
+func (x *c10Ctx) setterOnlyFromLock(fn *ssa.Function, val ssa.Value) string {
+	p, ok := c10Strip(val).(*ssa.Parameter)
+	if !ok || p.Parent() != fn {
+		return "the stored value is not a parameter of a setter"
+	}
+	pi := c10ParamIndex(p)
+	n := 0
+	for _, caller := range prodFuncs(x.w) {
+		for _, b := range caller.Blocks {
+			for _, in := range b.Instrs {
+				if ci, isCall := in.(ssa.CallInstruction); isCall && ci.Common().StaticCallee() == fn {
+					n++
+					if caller != x.lockSwap {
+						return "it is also called from " + x.fname(caller)
+					}
+					if pi >= len(ci.Common().Args) || !x.fromChanParam(ci.Common().Args[pi]) {
+						return "lockSwap passes it a value that does not come from the channel parameter"
+					}
+					continue
+				}
+				// the function used as a value
+				for _, op := range in.Operands(nil) {
+					if f, isF := (*op).(*ssa.Function); isF && f == fn {
+						if ci, isCall := in.(ssa.CallInstruction); !isCall || ci.Common().StaticCallee() != fn {
+							return "it is used as a function value in " + x.fname(caller)
+						}
+					}
+				}
+			}
+		}
+	}
+	if n == 0 {
+		return "it has no call site"
 	}
 	return ""
 }
@@ -1099,7 +1640,7 @@ func (x *c10Ctx) ruleR4() {
 					verdicts[ci] = verdict{cons, pos, "bad", "the error of the lock is never tested: the requester gets no cancel"}
 					continue
 				}
-				bad := ""
+				bad, unsure := "", ""
 				propagates := fn != x.root && fn.Signature.Results().Len() > 0
 				for _, fe := range failE {
 					reach := an.ReachBlocks([]*ssa.BasicBlock{fe.To()}, cut, stop)
@@ -1108,6 +1649,9 @@ func (x *c10Ctx) ruleR4() {
 							continue
 						}
 						bad = "a path from the refusal to the return at " + w.Pos(r.Pos()) + " sends no CancelMessage for the requested id to the requesting peer"
+						if u := x.uninterpretedSend(fn, reach, helpers); u != "" {
+							unsure = u
+						}
 						// does this return hand the refusal to the caller?
 						handsUp := c10RetErr(r) == "nonnil"
 						for i := len(r.Results) - 1; i >= 0 && !handsUp; i-- {
@@ -1128,6 +1672,8 @@ func (x *c10Ctx) ruleR4() {
 				case propagates:
 					lockLike[fn] = true
 					verdicts[ci] = verdict{cons, pos, "up", "the refusal is returned to the caller, which is examined instead"}
+				case unsure != "":
+					verdicts[ci] = verdict{cons, pos, "unknown", unsure}
 				default:
 					if len(near) > 0 {
 						bad += " (sends that do not qualify: " + strings.Join(near, "; ") + ")"
@@ -1149,12 +1695,60 @@ func (x *c10Ctx) ruleR4() {
 				c.OK("C10.R4", v.cons, v.pos, v.detail)
 			case "up":
 				c.Note("C10.R4", v.cons, v.pos, v.detail)
+			case "unknown":
+				c.Unknown("C10.R4", v.cons, v.pos, v.detail)
 			default:
 				c.Bad("C10.R4", v.cons, v.pos, v.detail)
 			}
 		}
 	}
-	c.AtLeast("C10.R4", "lockSwap refusals examined below OnMessageReceived", nSites, 2)
+	c.AtLeast("C10.R4", "lockSwap refusals examined below OnMessageReceived", nSites, 1)
+}
+
+// uninterpretedSend: among the blocks in reach, fn calls a module function (or
+// starts a goroutine / calls a closure) that sends a message but is not a
+// recognised cancel helper, or sends a payload that was not built by
+// MarshalPeerswapMessage from a literal: the cancel may be sent in a way that is
+// not understood.
+func (x *c10Ctx) uninterpretedSend(fn *ssa.Function, reach map[*ssa.BasicBlock]bool, helpers map[*ssa.Function]c10CancelHelper) string {
+	w := x.w
+	for _, ci := range an.Calls(fn) {
+		if !reach[ci.Block()] {
+			continue
+		}
+		if w.Info(ci).Name == c10Send {
+			args := ci.Common().Args
+			if len(args) != 3 {
+				continue
+			}
+			// payload not produced by MarshalPeerswapMessage(&CancelMessage{…}) in this function
+			ex, ok := c10Strip(args[1]).(*ssa.Extract)
+			if !ok {
+				return "the payload sent at " + w.Pos(ci.Pos()) + " is not built here by MarshalPeerswapMessage; cannot tell whether it is the cancel"
+			}
+			mc, ok := ex.Tuple.(*ssa.Call)
+			if !ok || mc.Common().StaticCallee() != x.marshal {
+				return "the payload sent at " + w.Pos(ci.Pos()) + " is not built here by MarshalPeerswapMessage; cannot tell whether it is the cancel"
+			}
+			if _, isLit := c10Strip(mc.Call.Args[0]).(*ssa.Alloc); !isLit {
+				return "the message marshalled for the send at " + w.Pos(ci.Pos()) + " is not a literal; cannot tell whether it is the cancel"
+			}
+			continue
+		}
+		g := ci.Common().StaticCallee()
+		if g == nil || !w.InModule(g) || g.Blocks == nil || g == x.marshal {
+			continue
+		}
+		if _, isH := helpers[g]; isH {
+			continue
+		}
+		for _, e := range w.Summary(g).Effects {
+			if e.Name == c10Send || e.Name == "go:"+c10Send {
+				return x.fname(g) + " (called at " + w.Pos(ci.Pos()) + ") sends a message but is not a recognised cancel helper"
+			}
+		}
+	}
+	return ""
 }
 
 // c10CancelHelper: a function that sends a cancel for (its id parameter) to
@@ -1325,6 +1919,7 @@ func (x *c10Ctx) ruleR5() {
 		return
 	}
 	// raw deletes must be inside release functions (keyed by the parameter)
+	rawDeletes := map[ssa.CallInstruction]bool{}
 	for _, fn := range prodFuncs(w) {
 		for _, ci := range an.Calls(fn) {
 			if w.Info(ci).Name != "builtin:delete" || !c10IsActiveMap(ci.Common().Args[0]) {
@@ -1335,7 +1930,8 @@ func (x *c10Ctx) ruleR5() {
 					continue
 				}
 			}
-			c.Bad("C10.R5", x.fname(fn)+" delete(activeSwaps)", w.Pos(ci.Pos()), "an activeSwaps entry is deleted directly, not through a release function whose callers are checked")
+			// a delete that is not keyed by a parameter is a release site itself
+			rawDeletes[ci] = true
 		}
 	}
 	cg := w.CG()
@@ -1393,22 +1989,38 @@ func (x *c10Ctx) ruleR5() {
 		}
 		return 0
 	}
-	nSites := 0
+	nSites, nInst := 0, 0
 	for _, fn := range prodFuncs(w) {
 		top := an.EnclosingTop(fn)
 		for _, ci := range an.Calls(fn) {
 			g := ci.Common().StaticCallee()
 			ki, isRel := x.releaseFns[g]
-			if g == nil || !isRel {
+			gname := "delete(activeSwaps)"
+			switch {
+			case rawDeletes[ci]:
+				ki = 1
+			case g == nil || !isRel:
 				continue
+			default:
+				gname = g.Name()
 			}
 			nSites++
-			cons := x.fname(fn) + " " + g.Name()
+			cons := x.fname(fn) + " " + gname
 			pos := w.Pos(ci.Pos())
 			m, ok := x.ownId(ci.Common().Args[ki])
+			if !ok {
+				// the key the machine was looked up with in activeSwaps is its own key as well
+				m, ok = x.lookedUpUnder(fn, ci.Common().Args[ki])
+			}
+			nInst += x.releaseWeight(fn, m)
 			why := ""
 			if !ok {
-				why = "the released key is not <machine>.SwapId.String()"
+				why = "the released key is neither <machine>.SwapId.String() nor the key a machine of this function was looked up with"
+				if _, isP := c10Strip(ci.Common().Args[ki]).(*ssa.Parameter); isP {
+					// a key handed in by the caller: cannot be related to a machine here
+					c.Unknown("C10.R5", cons, pos, "the released key is a parameter of "+x.fname(fn)+"; cannot relate it to the machine whose event finished")
+					continue
+				}
 			} else {
 				why = "not dominated by done == true of a SendEvent/Recover on the released machine"
 				for _, ei := range an.Calls(fn) {
@@ -1433,6 +2045,17 @@ func (x *c10Ctx) ruleR5() {
 			if why != "" && ok {
 				if hw, handled := x.releaseViaParams(fn, ci, m, prodCallers); handled {
 					why = hw
+				} else if mp, isP := m.(*ssa.Parameter); isP && mp.Parent() == fn {
+					// an unconditional release helper f(machine): its callers decide
+					switch v, lw := x.releaseLift(fn, mp, 0); v {
+					case "ok":
+						why = ""
+					case "unknown":
+						c.Unknown("C10.R5", cons, pos, lw)
+						continue
+					case "bad":
+						why = lw
+					}
 				}
 			}
 			if why == "" {
@@ -1443,10 +2066,158 @@ func (x *c10Ctx) ruleR5() {
 				c.Note("C10.R5", cons+" (dead)", pos, "unconditional release in a function without production callers in the call graph: ignored while it stays unreachable ("+why+")")
 				continue
 			}
+			if g := x.uninterpretedDoneGuard(ci.Block()); g != "" {
+				c.Unknown("C10.R5", cons, pos, why+"; but the release lies behind "+g+", whose relation to the result of SendEvent/Recover is not understood")
+				continue
+			}
 			c.Bad("C10.R5", cons, pos, why+": the channel is unlocked while the swap is still running and a second swap can be started on it")
 		}
 	}
-	c.AtLeast("C10.R5", "release call sites", nSites, 15)
+	_ = nSites
+	c.AtLeast("C10.R5", "release instances (a release in a helper counts once per call of the helper)", nInst, 15)
+}
+
+// uninterpretedDoneGuard: block b is dominated by the true edge of a boolean
+// that is not directly a result of SendEvent/Recover (a merged local, a field,
+// the result of some other call): it may carry the done flag.
+func (x *c10Ctx) uninterpretedDoneGuard(b *ssa.BasicBlock) string {
+	for _, f := range x.w.FactsDominatingBlock(b) {
+		if f.Rel != "true" || f.Cond == nil {
+			continue
+		}
+		if bt, ok := f.Cond.Type().Underlying().(*types.Basic); !ok || bt.Kind() != types.Bool {
+			continue
+		}
+		switch y := f.Cond.(type) {
+		case *ssa.Extract:
+			if k, ok := y.Tuple.(*ssa.Call); ok {
+				if g := k.Common().StaticCallee(); g == x.sendEvent || g == x.recoverFn {
+					continue // interpreted exactly by the caller
+				}
+			}
+			return "the boolean " + x.w.Term(y) + " (" + x.w.Pos(y.Pos()) + ")"
+		case *ssa.Phi, *ssa.Call, *ssa.UnOp, *ssa.Parameter, *ssa.Field:
+			return "the boolean " + x.w.Term(y) + " (" + x.w.Pos(f.Cond.Pos()) + ")"
+		}
+	}
+	return ""
+}
+
+// doneDominates: block at of fn lies behind done == true of a SendEvent/Recover on machine m.
+func (x *c10Ctx) doneDominates(fn *ssa.Function, at *ssa.BasicBlock, m ssa.Value) bool {
+	for _, ei := range an.Calls(fn) {
+		k, ok := ei.(*ssa.Call)
+		if !ok {
+			continue
+		}
+		eg := k.Common().StaticCallee()
+		if (eg != x.sendEvent && eg != x.recoverFn) || c10Strip(k.Call.Args[0]) != m {
+			continue
+		}
+		for _, dv := range an.ResultValues(k, 0) {
+			te, _ := an.BoolEdges(dv)
+			for _, e := range te {
+				if an.EdgeDominates(e, at) {
+					return true
+				}
+			}
+		}
+	}
+	return false
+}
+
+// releaseLift: fn releases its machine parameter p unconditionally; every
+// production call of fn must then lie behind done == true for the machine it is
+// given. Verdicts "ok", "bad", "unknown", "none" (no static caller).
+func (x *c10Ctx) releaseLift(fn *ssa.Function, p *ssa.Parameter, depth int) (string, string) {
+	if depth > 2 {
+		return "unknown", "call depth limit reached while following a release helper"
+	}
+	pi := c10ParamIndex(p)
+	n := 0
+	for _, caller := range prodFuncs(x.w) {
+		for _, ci := range an.Calls(caller) {
+			if ci.Common().StaticCallee() != fn {
+				continue
+			}
+			n++
+			if pi >= len(ci.Common().Args) {
+				return "unknown", "cannot match the arguments of " + x.fname(fn)
+			}
+			arg := c10Strip(ci.Common().Args[pi])
+			if x.doneDominates(caller, ci.Block(), arg) {
+				continue
+			}
+			if ap, isP := arg.(*ssa.Parameter); isP && ap.Parent() == caller {
+				if v, why := x.releaseLift(caller, ap, depth+1); v == "ok" {
+					continue
+				} else if v != "none" {
+					return v, why
+				}
+			}
+			if g := x.uninterpretedDoneGuard(ci.Block()); g != "" {
+				return "unknown", "the release helper " + x.fname(fn) + " is called in " + x.fname(caller) + " behind " + g + ", whose relation to the result of SendEvent/Recover is not understood"
+			}
+			return "bad", "the release helper " + x.fname(fn) + " is called in " + x.fname(caller) + " (" + x.w.Pos(ci.Pos()) + ") without done == true of a SendEvent/Recover on the released machine"
+		}
+	}
+	if n == 0 {
+		return "none", ""
+	}
+	return "ok", ""
+}
+
+// lookedUpUnder: key is the very value under which a machine that fn sends an
+// event to was looked up in activeSwaps; returns that machine.
+func (x *c10Ctx) lookedUpUnder(fn *ssa.Function, key ssa.Value) (ssa.Value, bool) {
+	key = c10Strip(key)
+	for _, ei := range an.Calls(fn) {
+		k, ok := ei.(*ssa.Call)
+		if !ok {
+			continue
+		}
+		if eg := k.Common().StaticCallee(); eg != x.sendEvent && eg != x.recoverFn {
+			continue
+		}
+		m := c10Strip(k.Call.Args[0])
+		var tuple ssa.Value = m
+		if ex, ok := m.(*ssa.Extract); ok {
+			tuple = ex.Tuple
+		}
+		switch t := tuple.(type) {
+		case *ssa.Call:
+			if ki, ok := x.lookupFns[t.Common().StaticCallee()]; ok && ki < len(t.Call.Args) && c10Strip(t.Call.Args[ki]) == key {
+				return m, true
+			}
+		case *ssa.Lookup:
+			if c10IsActiveMap(t.X) && c10Strip(t.Index) == key {
+				return m, true
+			}
+		}
+	}
+	return nil, false
+}
+
+// releaseWeight: 1, or the number of production call sites of fn when the
+// released machine is a parameter of fn (a shared delivery/finish helper stands
+// for all the handlers that use it).
+func (x *c10Ctx) releaseWeight(fn *ssa.Function, m ssa.Value) int {
+	p, ok := m.(*ssa.Parameter)
+	if !ok || p.Parent() != fn {
+		return 1
+	}
+	n := 0
+	for _, caller := range prodFuncs(x.w) {
+		for _, ci := range an.Calls(caller) {
+			if ci.Common().StaticCallee() == fn {
+				n++
+			}
+		}
+	}
+	if n == 0 {
+		return 1
+	}
+	return n
 }
 
 // releaseViaParams handles a release inside a helper `f(machine, done bool)`:
